@@ -8,7 +8,7 @@ from visions.types.date_time import DateTime
 @Date.register_relationship(DateTime, Sequence)
 def datetime_is_date(sequence: Sequence, state: dict) -> bool:
     value = time(0, 0)
-    return all(v == value for v in sequence)
+    return all(v.time() == value for v in sequence)
 
 
 @Date.register_transformer(DateTime, Sequence)
